@@ -503,6 +503,9 @@ func (t *treeListIterator) Next() bool {
 }
 
 func (t *treeListIterator) start() bool {
+	// Clear the current node, as when restarting from a deleted node on an empty
+	// tree we would otherwise remain on the deleted node forever.
+	t.node = nil
 	next := t.list.root
 	for next != nil {
 		t.node = next
